@@ -192,7 +192,8 @@ class EYAMLProcessor(Processor):
 
     def encrypt_eyaml(
         self, value: str,
-        output: EYAMLOutputFormats = EYAMLOutputFormats.STRING
+        output: EYAMLOutputFormats = EYAMLOutputFormats.STRING,
+        force: bool = False
     ) -> str:
         """
         Encrypt a value via EYAML.
@@ -200,6 +201,8 @@ class EYAMLProcessor(Processor):
         Parameters:
         1. value (str) the value to encrypt
         2. output (EYAMLOutputFormats) the output format of the encryption
+        3. force (bool) Encrypt the value even when it looks like an EYAML
+           encryption; for clear text that is known to be clear text
 
         Returns:  (str) The encrypted result or the original value if it was
             already an EYAML encryption.
@@ -207,7 +210,7 @@ class EYAMLProcessor(Processor):
         Raises:
         - `EYAMLCommandException` when the eyaml binary cannot be utilized.
         """
-        if self.is_eyaml_value(value):
+        if not force and self.is_eyaml_value(value):
             return value
 
         if not self._can_run_eyaml():
@@ -271,7 +274,7 @@ class EYAMLProcessor(Processor):
     def set_eyaml_value(
         self, yaml_path: YAMLPath, value: str,
         output: EYAMLOutputFormats = EYAMLOutputFormats.STRING,
-        mustexist: bool = False
+        mustexist: bool = False, force: bool = False
     ) -> None:
         """
         Encrypt and store a value where specified via YAML Path.
@@ -283,6 +286,8 @@ class EYAMLProcessor(Processor):
         3. output (EYAMLOutputFormats) the output format of the encryption
         4. mustexist (bool) Indicates whether YAML Path must
            specify a pre-existing node
+        5. force (bool) Encrypt the value even when it looks like an EYAML
+           encryption
 
         Returns:  N/A
 
@@ -292,7 +297,7 @@ class EYAMLProcessor(Processor):
         self.logger.verbose(
             f"Encrypting value(s) for {yaml_path} using {output} format."
         )
-        encval: str = self.encrypt_eyaml(value, output)
+        encval: str = self.encrypt_eyaml(value, output, force)
         emit_format: YAMLValueFormats = YAMLValueFormats.FOLDED
         if output is EYAMLOutputFormats.STRING:
             emit_format = YAMLValueFormats.DEFAULT
